@@ -1,4 +1,6 @@
 import SJ.Proofs.Facts
+import SJ.Proofs.Edit
+import SJ.Proofs.WalkSafe
 /-
 C14 — Deletion removes exactly the selected members and all APIs agree after it.
 -/
@@ -9,5 +11,30 @@ open SJ SJ.Generated
 theorem C14_calc_next :
     swCalcNext = [[[cTagInteger, cTagUint, cTagFloat, cTagString], [cTagRoot, cTagObjectStart, cTagArrayStart]]] :=
   Facts.calc_next_cases
+
+open SJ.Layout
+
+/-- **SetNull on a container**: the object or array node `[q, e)` becomes `null` followed by a gap ending exactly
+    at `e` (every skip count lands inside the gap or on the next live entry); nothing else changes. -/
+theorem C14_setNull_container (pj : PJ) (v : LVal) (hok : Ok pj v) (q e : Nat) (hnode : HasNode q e v) (hqe : q + 2 ≤ e)
+    (hsmall : pj.tape.size < 2^56) (i : Iter) (hoff : i.off = q + 1) (hcur : i.cur.toNat = e)
+    (ht0 : inCase (caseOf swSetNull 0) i.t = false) (ht1 : inCase (caseOf swSetNull 1) i.t = false)
+    (ht : inCase (caseOf swSetNull 2) i.t = true) :
+    ∃ pj' i', i.setNull pj = .ok (pj', i') ∧ Ok pj' (substV q (.null q) v) ∧
+      pj'.strings = pj.strings ∧ pj'.msg = pj.msg ∧ pj'.tape.size = pj.tape.size :=
+  setNull_container_doc pj v hok q e hnode hqe hsmall i hoff hcur ht0 ht1 ht
+
+/-- The NOP fill used by every deletion writes `Nop | (hi − k)` at each `k ∈ [lo, hi)` and nothing else … -/
+theorem C14_nopFill (n : Nat) (tape : Array UInt64) (lo hi : Nat) (hn : hi - lo = n) (hsz : hi ≤ tape.size) :
+    ∃ tp, Iter.nopFill tape lo hi = .ok tp ∧ tp.size = tape.size ∧
+      (∀ k, lo ≤ k → k < hi → tp[k]? = some (mkWord tagNop (UInt64.ofNat (hi - k)))) ∧
+      (∀ k, (k < lo ∨ hi ≤ k) → tp[k]? = tape[k]?) := nopFill_spec n tape lo hi hn hsz
+/-- … which makes `[lo, hi)` a gap in the sense of Layout. -/
+theorem C14_fill_is_gap {pj' : PJ} {lo hi : Nat} (hh : hi < 2^56)
+    (h : ∀ k, lo ≤ k → k < hi → word pj' k = some (mkWord tagNop (UInt64.ofNat (hi - k)))) (hle : lo ≤ hi) : Gap pj' lo hi :=
+  gap_of_fill hh h hle
+/-- Walkers skip gaps: the object walker makes strict progress and never panics on any tape. -/
+theorem C14_next_element_total (pj : PJ) (o : View) (hl : o.lim ≤ pj.tape.size) :
+    SJ.WalkSafe.OkOrErr (View.parse pj o #[] (fuelOf pj)) := SJ.WalkSafe.parse_safe pj o hl
 
 end SJ.Properties.C14
